@@ -47,6 +47,7 @@ def run(ctx):
     judge_bad = 0
     hyp_bad = 0
     hyp_ok = 0
+    laok = 0
     for line in out.split("\n"):
         if not line.strip():
             continue
@@ -61,6 +62,8 @@ def run(ctx):
         if len(samples) < 5 and evals % 997 == 1:
             samples.append({"case": cid, "spec": specs.get(cid, "")[:300], "result": kv})
         lang = cid.rsplit("-", 1)[0]
+        if kv.get("laok") == "1":
+            laok += 1
         if kv.get("wfb") == "1" and kv.get("editok") == "1":
             hyp_ok += 1
         elif kv.get("wfb") != "1":
@@ -81,7 +84,7 @@ def run(ctx):
                           fingerprint={"lang": lang, "corr": "diff"}, found_input=False)
     ctx.oblige("corr:editTree=ts_subtree_edit", corr_bad == 0, "%d disagreements" % corr_bad)
     ctx.oblige("hyp:WFb-holds-on-every-real-tree(before and after)", hyp_bad == 0, "%d trees violate WFb" % hyp_bad)
-    ctx.coverage["theorem_hypotheses_met"] = {"cases_with_WFb_and_EditB": hyp_ok, "WFb_violations": hyp_bad}
+    ctx.coverage["theorem_hypotheses_met"] = {"cases_with_WFb_and_EditB": hyp_ok, "WFb_violations": hyp_bad, "cases_with_LaOK": laok}
     ctx.coverage.update({
         "evaluations": evals, "distinct_nontrivial": len(distinct),
         "rule": "zoo languages x grammar-directed documents (every 5th byte-mutated) x edit histories of 1-4 random edits "
